@@ -4638,7 +4638,11 @@ class _TensorDictKeysView:
                         # return key[1:] in self.tensordict._get_str(key[0], NO_DEFAULT).keys(include_nested=self.include_nested)
                         # this won't call _unravel_key_to_tuple but requires to get the default which can be suboptimal
                         if len(key) >= 3:
-                            leaf_td = item_root._get_tuple(key[1:-1], None)
+                            try:
+                                leaf_td = item_root._get_tuple(key[1:-1], None)
+                            except ValueError:
+                                # the key runs through a tensor: it designates no entry
+                                return False
                             if leaf_td is None or (
                                 not _is_tensor_collection(type(leaf_td))
                             ):
